@@ -20,6 +20,58 @@ def c05_shapes(tier):
     return lab.enum_e2(2, ("none", "req")) + e1[::8] + e3
 
 
+C05_NAMED = [
+    # (label, types.go body): hand-written programs whose interesting feature is in the *names*, which the shape notation does not carry
+    ("field-name-concatenation-collision", """
+type Name struct {
+	ID    int32  `parquet:"id"`
+	Value string `parquet:"value"`
+}
+
+type User struct {
+	Name   Name  `parquet:"name"`
+	Length int64 `parquet:"length"`
+}
+
+type UserName struct {
+	Value  *string `parquet:"value"`
+	Length int32   `parquet:"length"`
+}
+
+type Rec struct {
+	User     User     `parquet:"user"`
+	UserName UserName `parquet:"username"`
+}
+"""),
+    ("one-struct-type-used-for-three-groups", """
+type Pt struct {
+	X int32  `parquet:"x"`
+	Y *int32 `parquet:"y"`
+}
+
+type Rec struct {
+	A Pt   `parquet:"a"`
+	B *Pt  `parquet:"b"`
+	C []Pt `parquet:"c"`
+	N int64
+}
+"""),
+    ("untagged-and-mixed-case-tags", """
+type Inner struct {
+	CamelCase string
+	Snake_x   *int64 `parquet:"snake_x"`
+	UPPER     []bool `parquet:"UPPER"`
+}
+
+type Rec struct {
+	ID    int32
+	Inner Inner
+	Opt   *Inner `parquet:"Opt_Inner"`
+}
+"""),
+]
+
+
 def c05_prepare(D, pid, cfg, W, tier, replay):
     pkgs = []
     W.replay_pkgs = {}
@@ -62,6 +114,27 @@ def c05_prepare(D, pid, cfg, W, tier, replay):
         shapes = c05_shapes(tier)
         W.lab = lab.build_lab(W, shapes, prefix="s")
         pkgs += ["lab/" + r["name"] for r in W.lab if r["ok"]]
+        # named programs
+        named = []
+        for i, (label, body) in enumerate(C05_NAMED):
+            name = "n%04d" % i
+            src = "package %s\n%s" % (name, body)
+            r = lab.gen_one(W, name, src, determinism=True)
+            r["notation"] = r["typed"] = "named=" + label
+            r["source"] = src
+            named.append(r)
+        bad = lab.build_all(W, [r["name"] for r in named if r["ok"]])
+        for r in named:
+            if r["ok"] and r["name"] in bad:
+                r["ok"], r["cls"] = False, "compile-error"
+                r["log"] = "\n".join([l for l in bad[r["name"]].splitlines() if l.strip()][:3])[:600]
+                for fn in ("parquet.go", "adapter.go"):
+                    try:
+                        os.remove(os.path.join(W.h, "lab", r["name"], fn))
+                    except OSError:
+                        pass
+        W.lab += named
+        pkgs += ["lab/" + r["name"] for r in named if r["ok"]]
     return pkgs
 
 
@@ -89,6 +162,8 @@ def c05_post(D, pid, cfg, W, tier):
         if r["ok"]:
             continue
         key = "C05/%s/shape=%s" % (r["cls"], r["typed"])
+        if r["typed"].startswith("named="):
+            key = "C05/%s/%s" % (r["cls"], r["typed"])
         if is_known(D, pid, key):
             hits[key] = hits.get(key, 0) + 1
             continue
@@ -98,7 +173,8 @@ def c05_post(D, pid, cfg, W, tier):
     for r in W.lab:
         if not r["ok"]:
             first = (r["log"].strip().splitlines() or [""])[0]
-            cat.append("known: property=%s key=C05/%s/shape=%s :: %s: %s" % (pid, r["cls"], r["typed"], r["cls"], first[:160].replace(" :: ", " : ")))
+            kk = ("C05/%s/%s" if r["typed"].startswith("named=") else "C05/%s/shape=%s") % (r["cls"], r["typed"])
+            cat.append("known: property=%s key=%s :: %s: %s" % (pid, kk, r["cls"], first[:160].replace(" :: ", " : ")))
     cov = {"programs": len(W.lab), "program_build_classes": counts, "known_finding_hits_build": hits, "catalogue_lines": cat}
     return violations, cov, lines
 
@@ -119,7 +195,7 @@ def register(PROPS):
         stages=[dict(test="TestC05", kind="enum", quick=1, thorough=1, timeout_thorough=5400)],
         replay="TestReplayC05",
         rule="programs: quick = every column context with <= 2 group ancestors realised as a minimal struct with a required earlier sibling where the context says 'later child' (258) + every 8th "
-             "shape of E1 + 47 composites; thorough = E1 (all 1560 shapes with <= 2 children per struct and group depth <= 1) + E2 (3615 context structs: each ancestor r|o|p x first/later child x "
+             "shape of E1 + 47 composites + 3 hand-written programs whose feature is in the names (name-concatenation collision, one struct type used for three groups, untagged / mixed-case tags); thorough = E1 (all 1560 shapes with <= 2 children per struct and group depth <= 1) + E2 (3615 context structs: each ancestor r|o|p x first/later child x "
              "earlier sibling in {required, optional, repeated leaf, optional group}) + composites; leaf types rotate through the 8 primitives. Per program: parquetgen twice (byte-identical output), "
              "go build, then for up to 120 structurally distinct records (all of them when fewer; label value-space-complete) three workloads (one batch/large pages/uncompressed; two batches/page size 1/snappy; "
              "two batches/page size 3/gzip): read back == written, file valid under the C02 walker, column data == reference striping and reassembles. evaluations = records judged; every judged "
@@ -472,13 +548,28 @@ def c15_prepare(D, pid, cfg, W, tier, replay):
             shapes.append(("s%04d" % i, f))
     W.c15 = []
     items = []
-    for name, f in shapes:
+    for k, (name, f) in enumerate(shapes):
         f = tuplify(f)
+        f = lab.annotate(f, prims=C15_PRIMS, tag_all=True)
+        if k % 3 == 1:
+            f = underscore_tags(f)  # column names that are identifiers with an underscore (n3 -> n_3)
         items.append((name, f, dict(tag_all=True, prims=C15_PRIMS)))
     res = lab.build_lab(W, items, determinism=False)
     for (name, f, kw), r in zip(items, res):
         W.c15.append(dict(name=name, fields=f, res=r, typed=lab.typed_notation(f, prims=C15_PRIMS), cols=lab.column_paths(f, prims=C15_PRIMS, tag_all=True)))
     return ["lab/" + c["name"] for c in W.c15 if c["res"]["ok"]]
+
+
+def underscore_tags(fields):
+    out = []
+    for f in fields:
+        if f[0] == "leaf":
+            out.append(("leaf", f[1], f[2], f[3].replace("n", "n_", 1) if f[3] else f[3], f[4]))
+        elif f[0] == "group":
+            out.append(("group", f[1], underscore_tags(f[2]), f[3], f[4].replace("n", "g_", 1) if f[4] else f[4]))
+        else:
+            out.append(f)
+    return out
 
 
 def tuplify(f):
@@ -603,7 +694,7 @@ def register(PROPS):
         stages=[dict(test="TestC15Write", kind="enum", quick=1, thorough=1, shards=1), dict(test="TestC15Read", kind="enum", quick=1, thorough=1, bin="props2.test", premid=True, timeout_thorough=3600)],
         replay="TestReplayC15",
         rule="programs: 7 fixed shapes + seeded random shapes (32 quick / 400 thorough): 1..4 fields per struct, each a leaf {required, optional} of int32/string/bool/int64/float64/float32 or a group "
-             "{required, optional} nested to depth 3; all columns tagged with unique identifiers. Per program: up to 40 structurally distinct records written with the source type (codec rotates), "
+             "{required, optional} nested to depth 3; all columns tagged with unique identifiers (every third program uses names with an underscore, e.g. g_3.n_4). Per program: up to 40 structurally distinct records written with the source type (codec rotates), "
              "parquetgen -parquet on the file, compile, then: notation and column paths of the regenerated Rec (by reflection) == source; regenerated reader returns the written values. "
              "evaluations = records compared; non-trivial = shape with a group at depth >= 2 or an optional group; distinct by program.",
     )
